@@ -55,9 +55,10 @@ def log(*a):
 # Coq term emission
 # ----------------------------------------------------------------------------------------------
 def cstr(s):
-    """Python str -> Coq `string` term holding its UTF-8 bytes."""
+    """Python str -> Coq `string` term holding its UTF-8 bytes.  Printable ASCII, TAB and LF are written
+    raw inside the literal (Coq strings have no escapes; '"' is doubled); anything else as a byte list."""
     b = s.encode('utf-8')
-    if all(32 <= c < 127 for c in b):
+    if all(32 <= c < 127 or c in (9, 10) for c in b):
         return '"' + s.replace('"', '""') + '"'
     return '(sb [' + ';'.join(str(c) for c in b) + '])'
 
